@@ -56,3 +56,39 @@ Example C01_side_conditions_inhabited :
   (forall (a c : N) (i : bytes) (g : N), (fun (_ : N) (_ : option N) (_ : bytes) g => mk [] g None) a (Some c) i g =
                                           (fun (_ : N) (_ : option N) (_ : bytes) g => mk [] g None) a None i g).
 Proof. split; intros; [constructor|reflexivity]. Qed.
+
+From Verif Require Import Model.JumpDest Proofs.JumpDest_proofs.
+(** WHERE A PROGRAM MAY JUMP.  The jump-destination analysis (vm/analysis.go: a bit vector filled with set1/setN/set8/set16,
+    some of which ASSIGN whole bytes instead of or-ing into them) is modelled byte by byte; for EVERY code — any length, any
+    bytes, PUSH data running past the end — it never indexes outside the vector and marks exactly the immediate bytes of
+    PUSH instructions, so JUMP/JUMPI accept exactly the JUMPDEST bytes that are instructions *)
+Theorem C01_jump_destination_analysis_exact : forall code,
+  (exists b, code_bitmap code = Ok b /\ forall i, (i < length code)%nat -> bv_get b i = is_data code i) /\
+  (forall d, valid_jumpdest code d = Ok (valid_jumpdest_spec code d)).
+Proof. intro code. split; [apply code_bitmap_correct|intro d; apply valid_jumpdest_correct]. Qed.
+Print Assumptions C01_jump_destination_analysis_exact.
+
+Example C01_jumpdest_example :
+  let code := [0x60; 0x5b; 0x5b; 0x7f; 0x5b; 0x5b]%N in
+  valid_jumpdest code 1 = Ok false /\ valid_jumpdest code 2 = Ok true /\ valid_jumpdest code 4 = Ok false /\ valid_jumpdest code 9 = Ok false.
+Proof. exact ex_jumpdest. Qed.
+
+From Verif Require Import Model.Mem Model.MemSize Proofs.MemSize_proofs.
+Open Scope N_scope.
+(** HOW FAR MEMORY GROWS.  Which operands of an instruction denote a memory region (vm/memory_table.go), calcMemSize64 and the
+    rounding to words are modelled (Model/MemSize.v): a frame's memory only grows, stays a whole number of words, covers the
+    region the instruction names with less than a word to spare, and a zero-length region is free wherever it lies *)
+Theorem C01_memory_expansion : forall op s before after,
+  mem_after op s before = Some after ->
+  before <= after /\ (before mod 32 = 0 -> after mod 32 = 0) /\
+  (forall size, mem_needed op s = Some (size, false) -> size <= after /\ (before < after -> after < size + 32)).
+Proof.
+  intros op s before after H. split; [eapply mem_after_grows; eauto|]. split.
+  - intro Hb. eapply mem_after_word_aligned; eauto.
+  - intros size Hn. eapply mem_after_covers; eauto.
+Qed.
+Print Assumptions C01_memory_expansion.
+
+Theorem C01_zero_length_region_is_free : forall off, calc_mem_size off 0 = (0, false).
+Proof. exact zero_length_region_is_free. Qed.
+Print Assumptions C01_zero_length_region_is_free.
